@@ -32,6 +32,10 @@ def session_classes(s: Session) -> set:
         c.add("unordered")
     if s.skipped_sends:
         c.add("skipped-sends")
+    if sum(link.bundled):
+        c.add("bundled-packets")
+    if link.yield_on_send:
+        c.add("yielding-send")
     return c
 
 
